@@ -70,6 +70,15 @@ for _m in list(sys.modules.values()):
             pass
 
 
+class HarnessHang(BaseException):
+    """Raised by the per-path watchdog (SIGALRM) when one path runs far beyond its budget without the engine noticing
+    (a loop over concrete data makes no solver decisions, so CrossHair's own path timeout never fires)."""
+
+
+def _on_alarm(signum, frame):
+    raise HarnessHang()
+
+
 @dataclass
 class Result:
     status: str  # CONFIRMED | REFUTED | INCONCLUSIVE
@@ -86,6 +95,7 @@ class Result:
     solver_s: float = 0.0
     wall_s: float = 0.0
     exhausted: bool = False
+    hangs: List[Dict[str, Any]] = field(default_factory=list)
 
 
 def _mk_args(params: Dict[str, Tuple], space) -> Tuple[Dict[str, Any], Dict[str, Any]]:
@@ -150,8 +160,14 @@ def explore(
     deadline = time.process_time() + budget_s
     exhausted = False
     i = 0
+    import signal
+
+    signal.signal(signal.SIGALRM, _on_alarm)
+    hang = False
     with Patched():
         for i in range(1, max_paths + 1):
+            if hang:
+                break
             start = time.process_time()
             if start > deadline:
                 res.reason = "budget of %.0fs exhausted after %d paths" % (budget_s, i - 1)
@@ -169,6 +185,7 @@ def explore(
                 try:
                     args = _mk_args(params, space)
                     ok = True
+                    signal.setitimer(signal.ITIMER_REAL, per_path_s * 3 + 5)
                     with ResumedTracing():
                         if assume is not None:
                             if not assume(**args):
@@ -209,6 +226,20 @@ def explore(
                                 res.witnesses.append(w)
                     else:
                         status = VerificationStatus.REFUTED
+                except HarnessHang:
+                    signal.setitimer(signal.ITIMER_REAL, 0)
+                    hang = True
+                    status = VerificationStatus.UNKNOWN
+                    res.unknown_paths += 1
+                    res.reason = "a path did not terminate within %.0f s of wall time" % (per_path_s * 3 + 5)
+                    try:
+                        w = _model_values(space, args) if args is not None else None
+                    except BaseException:  # noqa: BLE001 - the solver may have been interrupted mid-operation
+                        w = None
+                    if w is not None:
+                        res.hangs.append(w)
+                    res.paths += 1
+                    break
                 except IgnoreAttempt:
                     status = None
                     res.ignored_paths += 1
@@ -220,6 +251,8 @@ def explore(
                     status = VerificationStatus.UNKNOWN
                     res.unknown_paths += 1
                     res.reason = "unexplored path: %s %s" % (type(e).__name__, e)
+                finally:
+                    signal.setitimer(signal.ITIMER_REAL, 0)
                 res.decisions += len(space.choices_made)
                 try:
                     _top, exhausted = space.bubble_status(CallAnalysis(status))
